@@ -49,3 +49,28 @@ def scenario_block_time_while_holding():
 if __name__ == "__main__":
     print(scenario_restart_resets_clocks())
     print(scenario_block_time_while_holding())
+
+
+def threshold_after_pause_stop_start():
+    """Start; Pause; Stop; Start: the timer tags must run in the second run (a threshold instruction must start)"""
+    import logging
+    logging.disable(logging.CRITICAL)
+    from openpectus.test.engine.utility_methods import EngineTestRunner
+    from openpectus.test.engine.test_engine import create_test_uod
+    try:
+        runner = EngineTestRunner(create_test_uod, "Mark: A\n0.01 Mark: B\n", fail_on_log_error=False)
+        with runner.run() as inst:
+            e = inst.engine
+            inst.start_run()
+            inst.run_ticks(3)
+            e.schedule_execution("Pause")
+            inst.run_ticks(3)
+            e.schedule_execution("Stop")
+            inst.run_ticks(4)
+            e.schedule_execution("Start")
+            inst.run_ticks(25)
+            bt, mark = e.tags["Block Time"].get_value(), str(e.tags["Mark"].get_value())
+            return {"violated": bt == 0.0 or not mark.endswith("B"), "block_time_in_second_run": bt, "marks": mark,
+                    "run_time": e.tags["Run Time"].get_value(), "scenario": "Start; Pause; Stop; Start with `Mark: A / 0.01 Mark: B`"}
+    finally:
+        logging.disable(logging.NOTSET)
